@@ -50,6 +50,10 @@ type SchedSpec struct {
 	MaxSteps  uint64  `json:"max_steps,omitempty"`
 	StallG    int     `json:"stall_g,omitempty"`  // stall: which client (1-based) is the slow one
 	StallAt   uint64  `json:"stall_at,omitempty"` // stall: at which of its decision points it is suspended
+	// PerCallCtx (database programs): every client call gets a context of its own that is cancelled
+	// the moment the call has returned (the `defer cancel()` idiom), while the work the call left
+	// behind (queued deletions) is still under way
+	PerCallCtx bool `json:"per_call_ctx,omitempty"`
 }
 
 func (s SchedSpec) config(choices []int32) simrt.Config {
@@ -80,6 +84,7 @@ func genSched(r *simrt.Rand, estSteps int) SchedSpec {
 		s.Bias = 0.9
 		s.TimerProb = 0.02
 	}
+	s.PerCallCtx = r.Intn(3) == 0
 	return s
 }
 
@@ -107,7 +112,7 @@ func (propC16) Runs(tier string) int {
 	if tier == "thorough" {
 		return 2_000_000
 	}
-	return 60_000
+	return 300_000
 }
 
 func (propC16) Gen(r *simrt.Rand, idx int, tier string) any {
